@@ -24,7 +24,8 @@ EXPLANATION = (
 )
 ASSUMPTIONS = ['dict iteration order is insertion order; list.sort is stable', 'set-typedness is derived from annotations, constructors and constant folding']
 
-_AMBIENT_CALLS = ('time.', 'random.', 'datetime.', 'uuid.', 'os.getenv', 'os.environ', 'os.listdir', 'os.scandir', 'os.getcwd', 'os.getpid',
+_AMBIENT_CALLS = ('os.curdir', 'pathlib.Path.cwd', 'Path.cwd', 'os.path.expanduser', 'os.path.expandvars', 'os.getlogin', 'os.uname', 'os.cpu_count',
+                  'os.getuid', 'os.path.getmtime', 'os.path.getctime', 'os.stat', 'sys.getfilesystemencoding', 'sys.platform', 'time.', 'random.', 'datetime.', 'uuid.', 'os.getenv', 'os.environ', 'os.listdir', 'os.scandir', 'os.getcwd', 'os.getpid',
                   'shutil.get_terminal_size', 'os.get_terminal_size', 'socket.', 'getpass.', 'platform.', 'locale.', 'glob.', 'tempfile.')
 
 
@@ -178,6 +179,8 @@ def c15_2(ctx):
                 t = unparse(node.func)
                 if t in ('id', 'hash', 'input') or any(t.startswith(a) for a in _AMBIENT_CALLS):
                     txt = t + '(...)'
+                elif t in ('os.path.relpath', 'relpath') and len(node.args) < 2 and not any(k.arg == 'start' for k in node.keywords):
+                    txt = t + '(<no start>): relative to the working directory'
             elif isinstance(node, ast.Attribute) and unparse(node) in ('os.environ', 'sys.argv', 'sys.flags'):
                 txt = unparse(node)
             if txt:
@@ -203,10 +206,18 @@ def c15_3(ctx):
         ctx.err('sort:inventory', '-', 'at least 3 sorts on the call tree', f'{n}')
 
 
-RULES = [c15_1, c15_2, c15_3]
+def c15_dirs(ctx):
+    """Independence from the order of -I options rests on the include-directory handling C17 checks."""
+    from rules.c17 import c17_6
+    c17_6(ctx)
+
+
+RULES = [c15_1, c15_2, c15_3, c15_dirs]
 
 _M = 'assembler/model/__init__.py'
 MUTANTS = [
+    V('c15-listing-relpath', 'assembler/pretty_printer/listing.py', "        output.write(f'\\n\\nFile: {filename}\\n')", "        import os\n        output.write(f'\\n\\nFile: {os.path.relpath(filename)}\\n')", 'C15.2'),
+    V('c15-dedup-keeps-spelling', 'assembler/engine.py', "                deduplicated_dirs.append(left_path)", "                deduplicated_dirs.append(include_dirs[i])", 'C17.6'),
     V('c15-class-cache-frozenset', 'assembler/line_object/instruction_line.py', "instructions_regex = '\\\\b' + '\\\\b|\\\\b'.join(isa_model.operation_mnemonics) + '\\\\b'",
       "InstructionLine._KNOWN = frozenset(isa_model.operation_mnemonics)\n            instructions_regex = '\\\\b' + '\\\\b|\\\\b'.join(InstructionLine._KNOWN) + '\\\\b'", 'C15.1'),
     V('c15-mnemonics-from-set', _M, "        return list(self._instructions.keys())", "        return list(set(self._instructions.keys()))", 'C15.1'),
